@@ -209,10 +209,7 @@ func flagEdges(fn *ssa.Function, field string, want bool) []sx.Edge {
 		}
 		v, _ := condOf(ifi)
 		c, ok := v.(*ssa.Call)
-		if !ok || c.Call.StaticCallee() == nil || c.Call.StaticCallee().Name() != "get" || len(c.Call.Args) == 0 {
-			return
-		}
-		if _, ok := fieldAddrOf(c.Call.Args[0], field); ok {
+		if ok && isFlagOp(&c.Call, "get", field) {
 			out = append(out, edgeWhere(ifi, want))
 		}
 	})
@@ -229,6 +226,7 @@ func runC09(l *core.Ledger) {
 	l.Rule("C09-W3", "a reply channel that can be registered as streaming has no capacity bound covering its deliveries, so delivery must not be a plain blocking send under responseMut")
 	l.Rule("C09-W4", "a server-stream correctable registers defer deleteRouter(id) for every node of the configuration before entering its reply loop")
 	l.Rule("C09-W6", "the stream is marked broken only on transport errors: no error value that can be a context's Err() (directly or through a repository function's result) leads to streamBroken.set()")
+	l.Rule("C09-W9", "who may end a stream: the cancel function is called only while the stream is being replaced (streamMut write-held) or by sendMsg's per-write watcher; it is never handed to anything else")
 	l.Rule("C09-W8", "streamBroken.set() happens with streamMut held (the failed stream is still current) or on the not-yet-established branch (no reader exists)")
 	l.Rule("C09-W7", "the per-node goroutines (sender, receiver) return only inside a parentCtx.Done() case: nothing a call or a peer does can end them")
 	l.Rule("C09-W5", "the 'held while acquiring' graph over all mutexes of the runtime is acyclic and has no self-edge")
@@ -330,6 +328,7 @@ func runC09(l *core.Ledger) {
 	c09W4(l, r)
 	c09W6(l, r)
 	c09W7(l, r, roots)
+	c09W9(l, r)
 
 	// W5 lock order
 	var names []string
@@ -622,7 +621,14 @@ func c09W4(l *core.Ledger, r *rt) {
 		}
 		okRecv = okRecv && okBound
 	}
-	okID := len(def.Call.Args) == 2 && sx.All(sx.Origins(def.Call.Args[1]), sx.IsFieldNamed("MessageID", sx.IsFieldNamed("md", sx.AnyOrigin)))
+	// the call's own metadata: handed over in the state struct or as a plain parameter
+	isCallMD := func(o sx.Origin) bool {
+		if o.Kind == sx.KField && o.Field != nil && o.Field.Name() == "md" {
+			return true
+		}
+		return o.Kind == sx.KParam && o.V.Parent() == rl.fn && isNamed(o.V.Type(), orderingPkg, "Metadata")
+	}
+	okID := len(def.Call.Args) == 2 && sx.All(sx.Origins(def.Call.Args[1]), sx.IsFieldNamed("MessageID", isCallMD))
 	// unfiltered: from the loop body entry every path back to the head passes the defer
 	okAll := false
 	if head != nil {
@@ -741,10 +747,7 @@ func c09W6(l *core.Ledger, r *rt) {
 	for _, f := range allFuncs(l.Prog, r.pkg) {
 		sx.AllInstrs(f, func(nd sx.Node, in ssa.Instruction) {
 			c, ok := in.(*ssa.Call)
-			if !ok || c.Call.StaticCallee() == nil || c.Call.StaticCallee().Name() != "set" || len(c.Call.Args) != 1 {
-				return
-			}
-			if _, is := fieldAddrOf(c.Call.Args[0], "streamBroken"); !is {
+			if !ok || !isFlagOp(&c.Call, "set", "streamBroken") {
 				return
 			}
 			n++
@@ -806,10 +809,7 @@ func c09W8(l *core.Ledger, f *ssa.Function, nd sx.Node, c *ssa.Call, key string)
 		}
 		v, _ := condOf(ifi)
 		g, ok := v.(*ssa.Call)
-		if !ok || g.Call.StaticCallee() == nil || g.Call.StaticCallee().Name() != "get" || len(g.Call.Args) != 1 {
-			return
-		}
-		if _, is := fieldAddrOf(g.Call.Args[0], "connEstablished"); !is {
+		if !ok || !isFlagOp(&g.Call, "get", "connEstablished") {
 			return
 		}
 		if sx.EdgeDominates(f, edgeWhere(ifi, false), nd) {
@@ -818,6 +818,99 @@ func c09W8(l *core.Ledger, f *ssa.Function, nd sx.Node, c *ssa.Call, key string)
 	})
 	l.Check(noReader, "C09-W8", key, c.Pos(), "set before the first stream exists (no reader goroutine yet)",
 		"streamBroken is set without holding streamMut while a reader can exist: between the failed attempt and this write another goroutine can have re-established the stream, which is then marked broken although it is healthy - the sender's next reconnect waits for the write lock behind a reader parked on an idle healthy stream")
+}
+
+// c09W9: who may end a stream. The stream's cancel function may be called
+// while the stream is being replaced (streamMut write-held), and by the
+// per-write watcher that sendMsg starts (a closure of sendMsg, which C08-B3
+// bounds by close(done)). Handing it to anything else - a timer, a context
+// callback, another goroutine - lets a finished call's context or an
+// unrelated event end a healthy stream that later calls are using.
+func c09W9(l *core.Ledger, r *rt) {
+	n := 0
+	states := map[*ssa.Function]*sx.LockState{}
+	for _, a := range collectAccesses(l, r, "channel", "cancelStream") {
+		if a.kind != "read" {
+			continue
+		}
+		ld, ok := a.at.(*ssa.UnOp)
+		if !ok {
+			continue
+		}
+		// follow the loaded value through local copies
+		var uses func(v ssa.Value, depth int)
+		uses = func(v ssa.Value, depth int) {
+			if depth > 3 || v.Referrers() == nil {
+				return
+			}
+			for _, ref := range *v.Referrers() {
+				n++
+				key := fmt.Sprintf("%s/cancelStream-use#%d", fnKey(a.fn), n)
+				switch u := ref.(type) {
+				case *ssa.DebugRef:
+					n--
+				case *ssa.Call:
+					if u.Call.Value == v {
+						st := states[a.fn]
+						if st == nil {
+							st = sx.AnalyzeLocks(a.fn)
+							states[a.fn] = st
+						}
+						held := false
+						for _, h := range st.HeldAt(sx.NodeOf(u)) {
+							if h.Field == "streamMut" && !h.Read {
+								held = true
+							}
+						}
+						inWatcher := u.Parent().Parent() != nil
+						l.Check(held || inWatcher, "C09-W9", key, u.Pos(), "called while the stream is being replaced / by the per-write watcher", "the stream is cancelled outside the stream replacement and outside the per-write watcher")
+						continue
+					}
+					l.Bad("C09-W9", key, u.Pos(), "the stream's cancel function is handed to "+sx.StaticCalleeName(&u.Call)+": an event other than the write in progress or a failed re-creation (e.g. the end of a finished call's context) can now end a healthy stream that later calls are using")
+				case *ssa.MakeClosure:
+					// captured by a closure of the same function: its calls are judged where they happen
+					fn := u.Fn.(*ssa.Function)
+					for i, b := range u.Bindings {
+						if b == v && i < len(fn.FreeVars) {
+							uses(fn.FreeVars[i], depth+1)
+						}
+					}
+					n--
+				case *ssa.ChangeType:
+					n--
+					uses(u, depth)
+				case *ssa.Store:
+					if al, isAl := u.Addr.(*ssa.Alloc); isAl && u.Val == v {
+						// a local copy: every load of it, here and in the closures that capture it
+						var loadsOf func(addr ssa.Value)
+						loadsOf = func(addr ssa.Value) {
+							for _, r2 := range *addr.Referrers() {
+								switch x := r2.(type) {
+								case *ssa.UnOp:
+									uses(x, depth+1)
+								case *ssa.MakeClosure:
+									fn := x.Fn.(*ssa.Function)
+									for i, b := range x.Bindings {
+										if b == addr && i < len(fn.FreeVars) {
+											loadsOf(fn.FreeVars[i])
+										}
+									}
+								}
+							}
+						}
+						loadsOf(al)
+						n--
+						continue
+					}
+					l.Bad("C09-W9", key, u.Pos(), "the stream's cancel function is stored outside the channel's own field")
+				default:
+					l.Bad("C09-W9", key, sx.PosOf(ref), fmt.Sprintf("the stream's cancel function is used by %T", ref))
+				}
+			}
+		}
+		uses(ld, 0)
+	}
+	l.Floor("C09-W9", n, 2, "uses of the stream's cancel function")
 }
 
 func c09W7(l *core.Ledger, r *rt, roots []goRoot) {
